@@ -19,7 +19,7 @@ fi
 rc_clean=$(run_demo demo_clean.log)
 git apply "$DEST/patch.diff"; applied=$?
 rc_patched=$(run_demo demo_patched.log)
-PYTHONPATH="$WT" timeout 2400 /venv/bin/python -m pytest -q -p no:cacheprovider --timeout=900 --continue-on-collection-errors --junitxml="$DEST/suite.xml" pynenc_tests > "$DEST/suite.log" 2>&1
+PYTHONPATH="$WT" timeout ${SUITE_TIMEOUT:-2400} /venv/bin/python -m pytest -q -p no:cacheprovider --timeout=900 --continue-on-collection-errors --junitxml="$DEST/suite.xml" pynenc_tests > "$DEST/suite.log" 2>&1
 suite_rc=$?
 # the suite's kill/stop/signal tests leak runner worker processes (re-parented to pid 1, polling for ever): remove ours
 for p in $(pgrep -f python); do [ "$(readlink /proc/$p/cwd 2>/dev/null)" = "$WT" ] && [ "$p" != "$$" ] && kill -9 $p 2>/dev/null; done
